@@ -3,6 +3,8 @@
 import json, os
 ROOT = os.path.dirname(os.path.abspath(__file__))
 conf = json.load(open(os.path.join(ROOT, "verifconf.json")))
+import glob
+conf["properties"] = {os.path.basename(p)[:-5]: json.load(open(p)) for p in sorted(glob.glob(os.path.join(ROOT, "conf", "C*.json")))}
 props = [json.loads(l) for l in open(os.path.join(ROOT, "properties.jsonl")) if l.strip()]
 checks, na = [], []
 engines = {}
